@@ -3,26 +3,33 @@ import collections, itertools, os, select, socket, struct, threading, time
 from .. import common as C
 
 MANIFEST = dict(
-    text="Lean 4 theorems over executable byte automata of the backend response path: header "
-         "accumulation/parsing (http_response_parse_headers/_process_headers incl. NPH/CGI, 1xx loop, "
-         "64 KiB limit), Content-Length accounting, the backend chunked decoder "
-         "(http_chunk_decode_append_data incl. trailers), FastCGI record reassembly (fastcgi_get_packet, "
-         "fcgi_recv_parse_loop, padding, END_REQUEST), end-of-stream classification "
-         "(gw_recv_response/_error, http_response_backend_done/_error) and the client-side framing "
-         "(http_response_write_prepare, h1_send_headers, http_chunk): segmentation independence, "
-         "round trips, truncated/malformed never complete; tied to the C by differential runs of the "
-         "real gw_backend.c/mod_fastcgi.c/http-header-glue.c/http_chunk.c/response.c/h1.c code over a "
-         "socketpair (every split of short responses, every cut point, all end kinds) under ASan/UBSan, "
-         "and by running the real sanitized lighttpd (mod_proxy, mod_scgi, mod_fastcgi; h1.c and h2.c) against "
-         "scripted backends over TCP with HTTP/1.0, HTTP/1.1 and HTTP/2 clients, "
-         "with an independent strict client-side parser as property oracle",
+    text="Lean 4 theorems over executable byte automata of the backend response path. PROVED (all inputs): the "
+         "backend chunked decoder (round trip incl. the encoder's own hex rendering, truncated never complete, "
+         "malformed rejected, same result for every split) and FastCGI record reassembly (padding never leaks, "
+         "truncated stream never ends the request, same result for every split) as separate layers; storage of "
+         "end-to-end fields; exact HTTP/1.1 wire image of a one-read Content-Length response; and, over ALL runs of "
+         "the composite relay (reachability invariant), what lighttpd does when the backend stream breaks: own "
+         "complete 500/502 with the exact Content-Length while the response head is unsent, otherwise nothing "
+         "appended + keep-alive off (HTTP/2: RST_STREAM), a bodiless response (HEAD, 304) is complete with its "
+         "head. TESTED ONLY (correspondence + oracle, not theorems): that every split of a WHOLE response gives the "
+         "client the same message, CGI/NPH status mapping, 1xx, trailers, re-chunking, 64 KiB head limit, that a "
+         "failure detected while reading (bad chunk framing, early END_REQUEST) ends in the same paths, and that "
+         "an abort is visible to the client (false for HTTP/1.0 close-delimited responses: known finding KF10, "
+         "witness theorem). The model is tied to the C by differential runs of the real gw_backend.c/mod_fastcgi.c/"
+         "http-header-glue.c/http_chunk.c/response.c/h1.c code over a socketpair (every split of short responses, "
+         "every cut point, all end kinds, HEAD/304/204, temp-file spill and splice) under ASan/UBSan, and by "
+         "running the real sanitized lighttpd (mod_proxy, mod_scgi, mod_fastcgi, mod_cgi; h1.c and h2.c) against "
+         "scripted backends over TCP with HTTP/1.0, HTTP/1.1 and HTTP/2 clients, with an independent strict "
+         "client-side parser as property oracle and a segmentation oracle (same octets, different reads, same "
+         "client-side response)",
     note="trusted: Lean kernel; hand-written models validated by the h_beresp correspondence; the "
          "harness-owned connection state machine stub (mirrors connection_state_machine_loop / the h2 "
-         "per-stream loop; in the harness HTTP/2 is observed at the level of logical frames, h2.c itself runs "
-         "only in the end-to-end stream); "
-         "socket behaviour beyond read() results, temp-file spill, authorizer/upgrade/X-Sendfile/"
-         "local-redirect modes are outside the model",
-    tech="Lean 4 proof over hand-written model + differential correspondence (in-process C harness)",
+         "per-stream loop; in the harness HTTP/2 is observed at the level of logical frames, h2.c itself and "
+         "mod_cgi.c's event glue run only in the end-to-end stream); one unproved model invariant is a "
+         "hypothesis of the truncation theorems (a body that lighttpd chunk-encodes itself has no known "
+         "Content-Length); socket behaviour beyond read() results, authorizer/upgrade/X-Sendfile/"
+         "local-redirect modes and reconnects (C11) are outside the model",
+    tech="Lean 4 proof over hand-written model + differential correspondence (in-process C harness and real server)",
     ref="6/C10")
 
 CRLF = b"\r\n"
@@ -1380,7 +1387,8 @@ def view(ver, head_req, out):
     return dict(cend=kv.get("end"), status=cv.get("status"), interims=[s_ for s_, _ in cv.get("interims", [])],
                 fields=by_name(cv.get("fields") or []), trailers=by_name(cv.get("trailers") or []),
                 body=cv.get("body") or b"", complete=cv.get("complete"), rst=bool(cv.get("rst")),
-                framing=cv.get("framing"))
+                framing=cv.get("framing"),
+                announces=any(k.lower() == b"trailer" for k, _ in (cv.get("fields") or [])))
 
 
 def view_diff(a, b):
@@ -1805,9 +1813,12 @@ def segmentation_oracle(ctx, name, seen):
         if out == "<crash>":
             continue
         if t[0] == "dechunk":
-            groups[("dechunk", t[1], t[2], "".join(t[3:]))].append((out, l))
+            o = out.split(" ")
+            # (after a framing error what was passed through before it was noticed depends on the reads: verdict only)
+            sig = o[0] if o[0] == "err" else " ".join(x for x in o if not x.startswith("h="))
+            groups[("dechunk", t[1], t[2], "".join(t[3:]))].append((sig, l))
         elif t[0] == "relay" and t[5] == "eof" and t[1] != "fcgi":
-            key = (t[2], t[4], out)
+            key = (t[2], t[3] == "0", t[4], out)
             if key not in vcache:
                 v = view(int(t[2]), t[4] == "H", out)
                 if "bad" in v:
@@ -1816,12 +1827,27 @@ def segmentation_oracle(ctx, name, seen):
                     f = dict(v["fields"])
                     for k, vs in v["trailers"].items():      # (trailers may be merged into the head)
                         f[k] = f.get(k, []) + vs
-                    vcache[key] = (v["cend"], v["status"], tuple(v["interims"]), v["complete"], v["body"],
-                                   tuple(sorted((k, tuple(sorted(x))) for k, x in f.items())))
+                    # (framing and connection reuse may depend on timing in streaming mode — Content-Length +
+                    #  keep-alive when everything is there at once, chunked / close-delimited otherwise; the
+                    #  message must be the same: status, interim responses, fields, body, completeness)
+                    done = v["complete"] is True or (v["complete"] is None and v["cend"] == "close")
+                    # (buffered mode: whether the Trailer announcement is relayed must not depend on the reads either)
+                    vcache[key] = (v["status"], tuple(v["interims"]), done, v["body"],
+                                   v["announces"] if t[3] == "0" else None, f)
             groups[("relay",) + tuple(t[1:6]) + ("".join(t[6:]),)].append((vcache[key], l))
     for key, lst in groups.items():
         if len(lst) < 2:
             continue
+        if key[0] == "relay":
+            drop = set()
+            if key[2] == "10":
+                # an HTTP/1.0 client cannot be sent a trailer section: trailer fields reach it only when they arrive
+                # before the response starts
+                ref = ref_backend(C.unhx(key[6]), key[1])
+                if ref.get("kind") == "msg":
+                    drop = set(k.lower() for k, _ in ref.get("trailers") or [])
+            lst = [((v[:-1] + (tuple(sorted((k, tuple(sorted(x))) for k, x in v[-1].items() if k not in drop)),))
+                    if v[0] != "bad" else v, l) for v, l in lst]
         a = lst[0]
         for b in lst[1:]:
             if b[0] != a[0]:
@@ -1898,6 +1924,28 @@ def replay_line(ctx, rep):
     if exe is None:
         print("harness does not build:", err[-2000:])
         return 1
+    if rep.get("other_input"):
+        # segmentation oracle: the same octets, cut differently
+        ls = [line_, rep["other_input"]]
+        o, rc, e = C.run_lines([exe], ls)
+        seen = dict(zip(ls, o))
+
+        class _Ctx:
+            pid = ctx.pid
+            hit = None
+
+            def violation(self, sig, what, replay, found=True):
+                self.hit = what
+        c2 = _Ctx()
+        segmentation_oracle(c2, rep.get("correspondence", "relay(h_beresp)"), seen)
+        for l, out in seen.items():
+            print("input:", l[:300])
+            print("impl :", out[:600])
+        print("oracle:", c2.hit)
+        if c2.hit or rc:
+            print("VIOLATION property=%s replay=(replayed)" % ctx.pid)
+            return 1
+        return 0
     o, rc, e = C.run_lines([exe], [line_])
     m, _, _ = C.run_model("beresp", [line_])
     t = line_.split(" ")
